@@ -76,6 +76,7 @@ pub fn eval_request(st: &mut State, req: &str) -> Option<Obs> {
         ["ord", t, a, b] => nums::ord_obs(t.parse().ok()?, a.parse().ok()?, b.parse().ok()?),
         ["consts", t] => nums::consts_obs(t.parse().ok()?),
         ["cnconst", i] => nums::cnconst_obs(i.parse().ok()?),
+        ["ntop", t, op, a, b] => nums::ntop_obs(t.parse().ok()?, op, a.parse().ok()?, b.parse().ok()?),
         ["tu2", fun, x, y, z] => ctors::tu2_obs(fun, x.parse().ok()?, y.parse().ok()?, z.parse().ok()?),
         ["tu", fun, x, y, z] => ctors::tu_obs(fun, x.parse().ok()?, y.parse().ok()?, z.parse().ok()?),
         _ => None,
@@ -294,6 +295,16 @@ fn main() {
                 for v in 0..top { out.req(&format!("new {} {} {}", cfg, t, v)); n += 1; if v > mx { over += 1; } }
             }
             out.stat("evaluations", n); out.stat("nontrivial", n); out.stat("out_of_range_arguments", over);
+        }
+        // operator impls on the restricted integers (none unless the source grew one): every pair of boundary values
+        "ntop-lines" => {
+            let mut n = 0u64;
+            for (t, op) in gen_conv::NT_OPS {
+                let (_, _, mx) = gen_conv::newtype_info(*t);
+                let vals = [0u64, 1, 2, mx / 2, mx / 2 + 1, mx - 1, mx];
+                for a in vals { for b in vals { out.req(&format!("ntop {} {} {} {}", t, op, a, b)); n += 1; } }
+            }
+            out.stat("evaluations", n); out.stat("nontrivial", n);
         }
         "num-lines" => {
             let mut n = 0u64;
